@@ -69,3 +69,154 @@ def stmts_of(fi):
             out.append(n)
     out.sort(key=lambda s: (s.lineno, s.col_offset))
     return out
+
+
+# --------------------------------------------------------------------------
+def _loads(node):
+    """Names read by an expression/statement header, excluding names bound by comprehensions/lambdas inside it."""
+    if node is None:
+        return set()
+    bound = set()
+    for n in ast.walk(node):
+        if isinstance(n, ast.comprehension):
+            for x in ast.walk(n.target):
+                if isinstance(x, ast.Name):
+                    bound.add(x.id)
+        elif isinstance(n, ast.Lambda):
+            for a in n.args.args:
+                bound.add(a.arg)
+    return {n.id for n in ast.walk(node) if isinstance(n, ast.Name) and isinstance(n.ctx, ast.Load)} - bound
+
+
+def _store_names(target):
+    return {n.id for n in ast.walk(target) if isinstance(n, ast.Name) and isinstance(n.ctx, ast.Store)}
+
+
+def _terminates(stmts):
+    return bool(stmts) and isinstance(stmts[-1], (ast.Break, ast.Continue, ast.Return, ast.Raise))
+
+
+def upward_exposed(stmts, defined=frozenset()):
+    """(names that may be read before being assigned on some path through stmts, names definitely assigned after)."""
+    exposed = set()
+    defined = set(defined)
+
+    def use(node):
+        exposed.update(_loads(node) - defined)
+
+    for st in stmts:
+        if isinstance(st, ast.Assign):
+            use(st.value)
+            for t in st.targets:
+                if not isinstance(t, ast.Name):
+                    # subscript / attribute / tuple targets read their bases and indices
+                    for x in ast.walk(t):
+                        if isinstance(x, (ast.Subscript, ast.Attribute)):
+                            use(x)
+                defined |= _store_names(t)
+        elif isinstance(st, ast.AugAssign):
+            use(st.value)
+            use(st.target)
+            if isinstance(st.target, ast.Name):
+                exposed.update({st.target.id} - defined)
+                defined.add(st.target.id)
+        elif isinstance(st, ast.AnnAssign):
+            use(st.value)
+            defined |= _store_names(st.target)
+        elif isinstance(st, (ast.Expr, ast.Return)):
+            use(st.value)
+        elif isinstance(st, ast.If):
+            use(st.test)
+            e1, d1 = upward_exposed(st.body, defined)
+            e2, d2 = upward_exposed(st.orelse, defined)
+            exposed |= e1 | e2
+            live = [d for d, blk in ((d1, st.body), (d2, st.orelse)) if not _terminates(blk)]
+            if live:
+                defined = set.intersection(*[set(d) for d in live])
+        elif isinstance(st, (ast.For, ast.While)):
+            if isinstance(st, ast.For):
+                use(st.iter)
+                inner = defined | _store_names(st.target)
+            else:
+                use(st.test)
+                inner = defined
+            e1, _ = upward_exposed(st.body, inner)
+            e2, _ = upward_exposed(st.orelse, defined)
+            exposed |= e1 | e2                                  # the body may run zero times: nothing becomes defined
+        elif isinstance(st, ast.With):
+            for item in st.items:
+                use(item.context_expr)
+                if item.optional_vars is not None:
+                    defined |= _store_names(item.optional_vars)
+            e1, defined = upward_exposed(st.body, defined)
+            exposed |= e1
+        elif isinstance(st, ast.Try):
+            e1, d1 = upward_exposed(st.body, defined)
+            exposed |= e1
+            for h in st.handlers:
+                e, _ = upward_exposed(h.body, defined)
+                exposed |= e
+            e, _ = upward_exposed(st.orelse, d1)
+            exposed |= e
+            e, _ = upward_exposed(st.finalbody, defined)
+            exposed |= e
+        elif isinstance(st, (ast.Raise, ast.Assert, ast.Delete)):
+            for x in ast.iter_child_nodes(st):
+                use(x)
+    return exposed, defined
+
+
+def loop_carried(loop):
+    """Names whose value in one iteration of `loop` may come from an earlier iteration:
+    read before being assigned on some path through the body, and assigned somewhere in the body."""
+    inner = _store_names(loop.target) if isinstance(loop, ast.For) else set()
+    exposed, _ = upward_exposed(loop.body, inner)
+    assigned = set()
+    for st in loop.body:
+        for n in ast.walk(st):
+            if isinstance(n, ast.Name) and isinstance(n.ctx, ast.Store):
+                assigned.add(n.id)
+    return (exposed & assigned) - inner
+
+
+ENTRY = 'ENTRY'
+
+
+def reaching_at_end(stmts, name, cur=None):
+    """Definitions of `name` that may reach the end of the block: a set of AST nodes (Assign/AugAssign/For) and/or ENTRY
+    (the value the name had on entry)."""
+    cur = {ENTRY} if cur is None else set(cur)
+    for st in stmts:
+        if isinstance(st, (ast.Assign, ast.AnnAssign)):
+            targets = st.targets if isinstance(st, ast.Assign) else [st.target]
+            if any(name in _store_names(t) for t in targets):
+                cur = {st}
+        elif isinstance(st, ast.AugAssign):
+            if isinstance(st.target, ast.Name) and st.target.id == name:
+                cur = {st}
+        elif isinstance(st, ast.If):
+            outs = []
+            for blk in (st.body, st.orelse):
+                r = reaching_at_end(blk, name, cur)
+                if not _terminates(blk):
+                    outs.append(r)
+            cur = set().union(*outs) if outs else set()
+        elif isinstance(st, (ast.For, ast.While)):
+            start = set(cur)
+            if isinstance(st, ast.For) and name in _store_names(st.target):
+                inner = reaching_at_end(st.body, name, {st})
+                cur = start | {st} | inner
+            else:
+                inner = reaching_at_end(st.body, name, start)
+                inner = reaching_at_end(st.body, name, start | inner)
+                cur = start | inner
+        elif isinstance(st, ast.With):
+            cur = reaching_at_end(st.body, name, cur)
+        elif isinstance(st, ast.Try):
+            a = reaching_at_end(st.body, name, cur)
+            outs = [reaching_at_end(st.orelse, name, a)]
+            for h in st.handlers:
+                outs.append(reaching_at_end(h.body, name, cur | a))
+            cur = set().union(*outs)
+            cur = reaching_at_end(st.finalbody, name, cur)
+    return cur
